@@ -77,6 +77,12 @@ class FnVal:
         return "FnVal(%s)" % self.node.get("def")
 
 
+class UserCallable:
+    """The user's function (a closure-typed parameter, possibly re-borrowed into a local) passed on as a value: `xs.map(f)`."""
+    def __init__(self, place):
+        self.place = place
+
+
 class ClosureVal:
     def __init__(self, node, env):
         self.node = node
@@ -716,6 +722,8 @@ class Interp:
     def apply_closure(self, cv, args, n):
         if isinstance(cv, FnVal):
             return self.apply_fn(cv, args, n)
+        if isinstance(cv, UserCallable):
+            return self.user_call(cv.place, list(args), n)
         node = cv.node
         saved = dict(self.env)
         try:
